@@ -20,6 +20,7 @@ import (
 
 func init() {
 	families["idstorm"] = famIDStorm
+	families["startcancel"] = famStartCancel
 	listers["C08"] = func(tier string, seed int64) []Case {
 		var out []Case
 		rng := rand.New(rand.NewSource(seed*1013 + 8))
@@ -33,6 +34,29 @@ func init() {
 				cfg.ClientNoFC, cfg.ServerNoFC = true, true
 			}
 			out = append(out, Case{Family: "idstorm", Seed: rng.Int63(), Cfg: cfg, P: map[string]int{"g": []int{2, 4, 8, 16, 32, 64}[rng.Intn(6)]}})
+		}
+		// an RPC whose context ends at the very start, with the new_stream sender held back just
+		// before it takes the carrier send lock (an unfair lock hand-off / a preemption there)
+		reps := 1
+		if tier == "thorough" {
+			reps = 30
+		}
+		for r := 0; r < reps; r++ {
+			for _, dir := range []string{"forward", "reverse"} {
+				for _, shape := range []string{"Unary", "ClientStream", "ServerStream", "Bidi"} {
+					for _, how := range []string{"already-cancelled", "expires-at-once", "cancel-after-open"} {
+						for _, fc := range []bool{true, false} {
+							for hit := 0; hit < 3; hit++ {
+								cfg := WorldCfg{Dir: dir}
+								if !fc {
+									cfg.ClientNoFC, cfg.ServerNoFC = true, true
+								}
+								out = append(out, Case{Family: "startcancel", Seed: rng.Int63(), Cfg: cfg, P: map[string]int{"hit": hit}, S: map[string]string{"shape": shape, "how": how}})
+							}
+						}
+					}
+				}
+			}
 		}
 		for _, c := range listers["C09"](tier, seed) {
 			if c.Family != "rawconv" {
@@ -64,7 +88,7 @@ func famIDStorm(w *World, c *Case, rng *rand.Rand) {
 	var jitter atomic.Int64
 	jitter.Store(rng.Int63())
 	w.installYield(&YieldPlan{Fn: func(point string, n int) {
-		if point == "client.newStream.allocated" || point == "server.create.begin" {
+		if point == "client.newStream.allocated" || point == "server.create.begin" || point == "carrier.send.beforeLock" {
 			// scheduling jitter only: no parking while the creation lock is held
 			x := jitter.Add(0x1e3779b97f4a7c15)
 			for i := int64(0); i < (x>>57)&7; i++ {
@@ -144,5 +168,78 @@ func famIDStorm(w *World, c *Case, rng *rand.Rand) {
 	}
 	w.CheckDelivery()
 	w.CheckTables(w.TCh, 0, 0, true, "after id storm")
+	w.Finish()
+}
+
+// famStartCancel: one RPC whose context is cancelled / expired at the very
+// start; the n-th carrier send after the tunnel is up is parked just before it
+// takes the send lock, so a later send (the cancel frame) can overtake it.
+func famStartCancel(w *World, c *Case, rng *rand.Rand) {
+	if err := w.Open(nil); err != nil {
+		w.Violate("C11", "open-failed", "open: %v", err)
+		w.Finish()
+		return
+	}
+	shape, how, hit := c.s("shape", "Unary"), c.s("how", "already-cancelled"), c.p("hit", 0)
+	w.SigExtra = fmt.Sprintf("%s/%s/%d", shape, how, hit)
+	parks := make([]time.Duration, hit+1)
+	parks[hit] = time.Millisecond
+	w.installYield(&YieldPlan{Parks: map[string][]time.Duration{"carrier.send.beforeLock": parks}})
+	s := &RPCSpec{ID: "sc", Method: shape}
+	switch shape {
+	case "Unary":
+		s.Client = []Op{{K: "invoke", N: 10}}
+		s.Handler = []Op{{K: "recv"}, {K: "send", N: 5}, {K: "ret"}}
+	case "ServerStream":
+		s.Client = []Op{{K: "open"}, {K: "send", N: 10}, {K: "close"}, {K: "recvall"}}
+		s.Handler = []Op{{K: "recv"}, {K: "send", N: 5}, {K: "ret"}}
+	default:
+		s.Client = []Op{{K: "open"}, {K: "send", N: 10}, {K: "close"}, {K: "recvall"}}
+		s.Handler = []Op{{K: "recvall"}, {K: "send", N: 5}, {K: "ret"}}
+	}
+	ctx, cancel := context.WithCancel(context.Background())
+	switch how {
+	case "already-cancelled":
+		cancel()
+	case "expires-at-once":
+		s.Timeout = time.Nanosecond
+	case "cancel-after-open":
+		if shape != "Unary" {
+			s.Client = append([]Op{s.Client[0], {K: "cancel"}}, s.Client[1:]...)
+		} else {
+			time.AfterFunc(500*time.Microsecond, cancel)
+		}
+	}
+	w.Env.StartRPC(ctx, w.Ch, s)
+	w.Advance(10 * time.Millisecond)
+	cancel()
+	// a bystander afterwards: the tunnel must still work
+	by := &RPCSpec{ID: "after", Method: "Unary", Client: []Op{{K: "invoke", N: 10}}, Handler: []Op{{K: "recv"}, {K: "send", N: 5}, {K: "ret"}}}
+	w.Env.StartRPC(context.Background(), w.Ch, by)
+	w.Advance(10 * time.Millisecond)
+	w.Stat("startcancel_runs", 1)
+	v := buildViews(w.Env)["after"]
+	if v == nil || v.invoke == nil || v.invoke.RetSeq == 0 || v.invoke.Err != "" {
+		es := "<blocked>"
+		if v != nil && v.invoke != nil && v.invoke.RetSeq != 0 {
+			es = v.invoke.Err
+		}
+		w.Violate("C07", "tunnel-unusable-after-cancel-at-start", "an RPC cancelled at its very start (%s) left the tunnel unusable: the next RPC ended with %s", w.SigExtra, es)
+	}
+	select {
+	case <-w.TCh.Done():
+		w.Violate("C08", "rpc-did-not-begin-with-new-stream", "an RPC cancelled at its very start (%s) ended the tunnel: %v", w.SigExtra, w.TCh.Err())
+	default:
+	}
+	n := 0
+	for _, inv := range w.Env.Log.Invocations {
+		if inv.RPC == "sc" {
+			n++
+		}
+	}
+	if n > 1 {
+		w.Violate("C08", "rpc-invoked-twice", "rpc sc resulted in %d handler invocations", n)
+	}
+	w.CheckTables(w.TCh, 0, 0, true, "after cancel at start")
 	w.Finish()
 }
